@@ -6,6 +6,7 @@ import (
 	"go/token"
 	"golang.org/x/tools/go/ssa"
 	"regexp"
+	"regexp/syntax"
 	"sort"
 	"strings"
 
@@ -14,7 +15,7 @@ import (
 
 func init() { Registry["C16"] = runC16 }
 
-const explanationC16 = "Decides structural necessary conditions of C16 on http/mux.go through SSA path tables (loops unrolled once): (R16.1) the wildcard table is keyed method+\"::\"+pattern with the same separator and operand order at its store (Handle) and both loads (Vars, resolveWildcard), and the stored pattern is the rewritten one that is also registered with the router; (R16.2) every value placed in the map returned by Vars is unescape(params.Values[i]) and unescape falls back to its input on error; (R16.3) resolveWildcard re-inserts \"/{*name}\" after trimming exactly the length of the \"/*\" replacement; (R16.4) Handle and Use mutate the muxer only under the mutex (Lock first, deferred Unlock); (R16.5) the not-found handler negotiates an encoder, writes 404, then encodes an error response, and is installed with the first Handle; (R16.6) route probes (Routes.Match) outside ensureContext use a fresh routing context so that the recorded pattern and parameters of the request are not disturbed; (R16.7) Use appends to the pending list when one exists and otherwise forwards to the router, Handle flushes every pending middleware into the router and clears the list before registering the route, and every returning path of Handle registers the route exactly once; (R16.8) the constructor gives Handle's first-registration sentinel a non-nil value; (R16.9) the pre-routing probe matches the bare request path. shared R15.1–R15.3 (the encoder that writes the 404 body announces the media type it encodes). NOT decided: chi's matching algorithm, whether capture is the inverse of URL construction for all strings (double percent-decoding depends on chi's RawPath/Path choice), client-side path building (delegated to net/url)."
+const explanationC16 = "Decides structural necessary conditions of C16 on http/mux.go through SSA path tables (loops unrolled once): (R16.1) the wildcard table is keyed method+\"::\"+pattern with the same separator and operand order at its store (Handle) and both loads (Vars, resolveWildcard), and the stored pattern is the rewritten one that is also registered with the router; (R16.2) every value placed in the map returned by Vars is unescape(params.Values[i]) and unescape falls back to its input on error; (R16.3) resolveWildcard re-inserts \"/{*name}\" after trimming exactly the length of the \"/*\" replacement; (R16.4) Handle and Use mutate the muxer only under the mutex (Lock first, deferred Unlock); (R16.5) the not-found handler negotiates an encoder, writes 404, then encodes an error response, and is installed with the first Handle; (R16.6) route probes (Routes.Match) outside ensureContext use a fresh routing context so that the recorded pattern and parameters of the request are not disturbed; (R16.7) Use appends to the pending list when one exists and otherwise forwards to the router, Handle flushes every pending middleware into the router and clears the list before registering the route, and every returning path of Handle registers the route exactly once; (R16.8) the constructor gives Handle's first-registration sentinel a non-nil value; (R16.9) the pre-routing probe matches the bare request path. shared R15.1–R15.3 (the encoder that writes the 404 body announces the media type it encodes). (R16.10) the error body written for unmatched requests carries each field of the error under its own name in every encoding (shared with C18/R18.4). (R16.11) the design side and the muxer recognise wildcard names with the same regular expression (compared in regexp/syntax canonical form). NOT decided: chi's matching algorithm, whether capture is the inverse of URL construction for all strings (double percent-decoding depends on chi's RawPath/Path choice), client-side path building (delegated to net/url)."
 
 const reRewritten = `\(\*regexp\.Regexp\)\.ReplaceAllString\(http\.wildPath, p2, "(/\*)"\)`
 
@@ -26,7 +27,9 @@ func runC16(c *an.Ctx) string {
 	r16NotFound(c)
 	r16Probe(c)
 	r16Sentinels(c)
-	r15ResponseEncoder(c) // shared with C15 (rule ids R15.1-R15.3): the 404 body is written by the encoder ResponseEncoder negotiates and must be announced with that encoder's media type
+	r1611WildcardNames(c, "R16.11")
+	r15ResponseEncoder(c)           // shared with C15 (rule ids R15.1-R15.3): the 404 body is written by the encoder ResponseEncoder negotiates and must be announced with that encoder's media type
+	errorFieldFidelity(c, "R16.10") // shared with C18/R18.4: the 404 body carries the fields of the error it reports in every encoding (the XML writer included)
 	return explanationC16
 }
 
@@ -528,4 +531,46 @@ func r16Sentinels(c *an.Ctx) {
 		})
 		c.Floor("R16.9", n, 1, "routing probes in ensureContext")
 	}
+}
+
+// r1611WildcardNames (R16.11): the design side (expr: route validation, path parameters, generated path builders)
+// and the runtime muxer recognise wildcards with two separate regular expressions. They must accept the same
+// names: the capture group of the design-side `/{\*?(…)}` and of the muxer's `/{\*(…)}` is the same expression. A
+// name only one of them accepts is a wildcard for the router and plain text for the generated code (or the
+// reverse), and the value captured is not the one the design declared.
+func r1611WildcardNames(c *an.Ctx, rule string) {
+	re := regexp.MustCompile("regexp\\.MustCompile\\(`([^`]*)`\\)")
+	find := func(dir, marker string) (name, group string) {
+		for v, init := range c.GlobalInits()[dir] {
+			m := re.FindStringSubmatch(init)
+			if m == nil || !strings.Contains(m[1], marker) {
+				continue
+			}
+			rest := m[1][strings.Index(m[1], marker)+len(marker):]
+			if i := strings.LastIndex(rest, ")"); i >= 0 && strings.HasPrefix(rest, "(") {
+				return v, rest[1:i]
+			}
+		}
+		return "", ""
+	}
+	dn, dg := find("expr", `/{\*?`)
+	mn, mg := find("http", `/{\*`)
+	if dn == "" || mn == "" {
+		c.Add(an.Obligation{Rule: rule, Construct: "wildcard patterns", Status: an.LOST, Nontrivial: true,
+			Detail: fmt.Sprintf("wildcard regular expressions not found (design side %q, muxer %q)", dn, mn)})
+		return
+	}
+	norm := func(g string) string {
+		// character classes and repetitions in the canonical form of regexp/syntax: [a-z0-9_]+ = [0-9_a-z]+ = \w+ (ASCII)
+		r, err := syntax.Parse(g, syntax.Perl)
+		if err != nil {
+			return g
+		}
+		return r.Simplify().String()
+	}
+	if norm(dg) == norm(mg) {
+		c.Okf(rule, "expr."+dn+"/http."+mn, "design side and muxer capture wildcard names with the same expression (%s)", dg)
+		return
+	}
+	c.Failf(rule, "expr."+dn+"/http."+mn, token.NoPos, "the design side recognises wildcard names with (%s), the muxer with (%s): a name only one of them accepts is routed as a wildcard but generated as plain text, or the reverse", dg, mg)
 }
